@@ -59,8 +59,8 @@ CHECKS = {
                 text="get_window_val vs the documented window for all shapes (exhaustive in the bound), _check_constraints for all truth patterns, and end-to-end assembly (inputs received by dependent distributions, one value per trial, constraints hold, discrete part valid).",
                 note="No deductive part (dicts, NaN, isinstance dispatch are outside pyvc.wp); termination of resampling not claimed.", ref="4.1 C22"),
     "C23": dict(cat="exploration", tech="relational: weighted design vs copy-expanded twin, both samplers exhausted, renamed back",
-                text="Printed sequence sets equal; crossed weighted levels add no distinct solutions; uncrossed ones have the twin's multiplicities.",
-                note="Constraints naming a weighted level are excluded from the twin comparison.", ref="4.3 C23"),
+                text="Printed sequence sets equal; weighted levels of factors in every crossing add no distinct solutions; for factors that are not in every crossing the multiset of solutions equals that of the twin in which exactly those factors have separately named copies (C23.twin.partly).",
+                note="Constraints naming a weighted level are excluded from the twin comparison. Known finding D19 (known_findings.json): copies of a weighted factor that is in some but not every crossing are not distinct solutions.", ref="4.3 C23"),
     "C24": dict(cat="exploration", tech="relational: documented constructor equivalences, both sides built fresh, T and exhausted IterateSATGen sets compared",
                 text="MultiCrossBlock vs Merge of CrossBlocks (mode x alignment grid), Repeat vs Merge REPEAT, Repeat(block, []) / Merge([block]) vs block, CrossBlock vs single-crossing MultiCrossBlock WEIGHT; both rejected or both accepted with equal sets.",
                 note="Bounded design space.", ref="4.3 C24"),
@@ -115,7 +115,7 @@ def main():
              engines=[dict(name="pyvc", path="/verif/pyvc", serves_properties=sorted(CHECKS),
                            kind_free_text="contract checker for the real Python code: pyvc.wp (AST -> verification conditions, z3/cvc5), pyvc.concolic (real CPython code on symbolic integers), bounded contract evaluation on the real functions")],
              checks=checks,
-             notes="See DESIGN.md. fix: commits in /repo are listed in known_findings.json.",
+             notes="See DESIGN.md (section 10: as built, defects, known findings D14 and D19, corrected false alarms). fix: commits in /repo and known findings are listed in /verif/known_findings.json.",
              not_applicable=[dict(property_id=p["id"], reason=na_reasons.get(p["id"], "check not built yet (build in progress)"))
                              for p in props if p["id"] not in CHECKS])
     (ROOT / "MANIFEST.json").write_text(json.dumps(m, indent=1))
